@@ -145,7 +145,7 @@ def run(chk):
     ]
     chk.assumptions = ["stream->clock_offset = 0", "a stream file is smaller than 2^63 bytes",
                        "theorems are about the repaired stream_step and emu_ev (patches/fix-c19-stream-bounds.diff, patches/fix-c12-is-jumbo.diff)"]
-    broken = common.translate(["loader", "loader_step", "tables", "footprint"])
+    broken = common.translate(["loader", "loader_step", "tables", "footprint", "stepper"])
     fixed_tree = not any("unit=loader_step" in b for b in broken)
     if broken:
         chk.proof_broken = {"kind": "translator", "messages": broken}
